@@ -63,7 +63,9 @@ no earlier change had gone for (four clauses of C07, two each of C02, C05 and
 C19, one each of C12 and C03). A twelfth round of twelve (`Z01-r12` … `Z12-r12`)
 gave each agent one or two properties and a one-line list of all 154 changes
 seeded so far, asking for a mechanism, a code location *and* a triggering input
-that differ from every one of them. Nothing from `/verif` was ever
+that differ from every one of them; a thirteenth round (`Y01-r13` … `Y12-r13`)
+repeated that with the list grown to 166 and the properties paired differently.
+Nothing from `/verif` was ever
 shown. Each was **confirmed independently** before being kept
 (`tools/confirm_mutant.sh`): the patch applies to the clean tree, the library
 builds with and without the `verif` tag, the demonstration passes without the
@@ -82,7 +84,7 @@ suite is thin.
 Outcome: **every one of the {n} changes is reported as a VIOLATION by the quick
 tier of the check of the property it was written against** (seed 1). About a
 quarter of them were *missed* by the version of the monitor that existed when
-they arrived (round 1: 3, round 2: 8, round 3: 7, round 4: 2, round 5: 3, round 6: 4, round 7: 7, round 8: 4, round 9: 6, round 10: 2, round 11: 1, round 12: 5, plus two
+they arrived (round 1: 3, round 2: 8, round 3: 7, round 4: 2, round 5: 3, round 6: 4, round 7: 7, round 8: 4, round 9: 6, round 10: 2, round 11: 1, round 12: 5, round 13: 6, plus two
 regression found by re-running every stored change against its own check after
 the harness had changed — `tools/diag.sh`: `K07-r5` and `C20-r2` had been caught
 through coincidences of the generator; the tool also prints how many violation
@@ -122,6 +124,9 @@ of the API.
   `payloads-dropped` (every structured payload except nested `EncodedError`s
   removed, wire messages and reportable strings kept; `V12-r9`); the kind
   `gstatusf`, `grpc/status.Errorf` with an unsafe argument (`V10-r9`).
+* **C01 / C13** — `fmt.Errorf` with two `%w` now also comes with its message
+  AFTER the operands, so that the text does not end with the last cause's text
+  (`Y01-r13`).
 * **C02** — `e` arriving from a sender on another platform (errno payloads
   rewritten as in C11), directly and relayed: every negative answer and every
   sentinel match is compared with the origin's; positive answers against locally
@@ -151,7 +156,8 @@ of the API.
 * **C10** — format-only kinds: `Newf` / `Wrapf` / `WithMessagef` with an escaped
   `%` and no argument (`A12-r4`); the nil sweep also runs 23 "rich argument" paths (tagged context,
   error-typed format arguments, non-empty link, package domain, `codes.OK` /
-  `Unknown`, empty message) (`C10-r3`); the `handledmsgf0` kind,
+  `Unknown`, empty message) (`C10-r3`); `Newf` with `%[1]w` instead of `%w`
+  (`Y07-r13`); the `handledmsgf0` kind,
   `HandledWithMessagef` with an escaped `%` and no argument, which C06 and C07
   use as well (`G06-r6`).
 * **C11** — the `tagsafe` kind: `Safe()`, nil and int tag values (`C11`); the
@@ -167,7 +173,10 @@ of the API.
   the exported string type (no `error domain:` prefix, possibly empty; newlines
   replaced, since such a string doubles unescaped as the type-mark extension)
   (`V09-r9`); the kind `withstackdeep`, a stack layer without frames (`V06`,
-  which exposed F19).
+  which exposed F19); one case in eight uses the `RegularBin` strings (`Y08-r13`).
+* **C04** — a message from a NEWER sender: the wrappers carry a message-type value
+  this version does not define (2, 7, −1); a process that knows none of the types
+  must hand it on as received (`Y04-r13`).
 * **C05** — the registry sweep's reportable-string sets got stack-shaped and
   malformed members (a printed stack, one with a blank line inside, without file
   rows, with a non-numeric line, with a generic instantiation, bare newlines /
@@ -213,7 +222,9 @@ of the API.
   the documented order) whose wire message differs from `Error()` and whose
   payload the decoder insists on (`C17-r3`); between two registrations each
   version uses the keys of the types registered so far, as `init()` code does
-  (`K03-r5`: a type-details cache with incomplete invalidation).
+  (`K03-r5`: a type-details cache with incomplete invalidation); a move that
+  changes only the import path — package `verifharness/migold` declares
+  `package mig` with the same type name (`Y10-r13`).
 * **C18** — the shared value stays *cold*: the "executed alone" reference is
   computed on a twin built from the same descriptor at the same call site, and
   again on the shared value afterwards (`C18`); every operation is also run as
@@ -239,7 +250,10 @@ of the API.
   one case in ten has two gRPC code layers, the outer one often `Unknown`, the
   "nothing attached" default; C20 does the same (`C20-r2`, regression), and in one
   case in ten lengthens strings to several hundred bytes of multi-byte runes
-  (`C20-r3`, whose catch rested on 4 observations).
+  (`C20-r3`, whose catch rested on 4 observations). C20's in-memory set-up got a
+  *forwarding service* (server interceptor → plain client → server interceptor):
+  what its intercepting client receives is compared with what the client next to
+  the origin receives (`Y12-r13`).
 
 Independently of the seeded changes, `tools/coverage.sh` measures which statements
 of the library the monitors' workloads execute (the harness built with
